@@ -118,6 +118,12 @@ h("VerifBatchUpdateBlobs", SV, CS, "one request: compressor identity / zstd / an
 h("VerifBatchReadBlobs", SV, CS, "one digest; cache answers miss / error / stream of any length with any size", "BatchReadBlobs: OK only with matching size, data = the bytes read, reader closed", unwind=16)
 h("VerifGetTree", SV, CS, "root Directory with <=2 child nodes: no digest / valid digest with any size / malformed hash / existing empty child", "GetTree never panics on a stored Directory", unwind=16)
 
+CR = ["zz_verif_crash.go", "zz_verif_put.go"]
+CRB = "one well-formed upload (size <= 2 MiB) into an empty cache, killed at file-system step k (k = 1..%d, or not at all; a killed write leaves an arbitrary prefix); restart with the real loader; read with size known or unknown"
+h("VerifCrashPutCasRaw", D, CR, CRB % 8, "kill during an upload (uncompressed CAS): restart succeeds, acknowledged data served, nothing torn served", unwind=24, switches=-1)
+h("VerifCrashPutAC", D, CR, CRB % 8, "kill during an upload (AC)", unwind=24, switches=-1)
+h("VerifCrashPutCasZstd", D, CR, CRB % 14, "kill during an upload (compressed CAS): restart succeeds, sizes agree; a file whose table is not finalised is rejected by readHeader", unwind=24, switches=-1)
+
 # property -> (quick harnesses, additional thorough harnesses, assumptions, outside)
 CODEC = "zstd codec replaced by a contract stub: frames self-delimiting, Decode(Encode(x)) = x, anything else fails"
 HASH = "sha256 replaced by a provenance model: collision-free, digest equals the declared hash iff the hashed bytes are exactly the declared blob"
@@ -134,6 +140,7 @@ P = {
          ["VerifPutCasZstd", "VerifPutCasZstdProxy", "VerifGetCasZstd", "VerifProxyGetCasRaw", "VerifProxyGetCasZstd"], [FSM, CODEC, HASH], ["files created by anything other than bazel-remote", "directory fsync"]),
  "C05": (["VerifLRUAdd3", "VerifLRUReserve3", "VerifLRUGet", "VerifGetAC", "VerifContains"], ["VerifLRUAdd4", "VerifLRUReserve4", "VerifGetCasZstd", "VerifGetCasRaw"], [FSM], ["atime order after restart (C09)", "more live entries than the bound"]),
  "C06": (["VerifValidatedAC", "VerifValidatedACDir", "VerifValidatedACProxy"], ["VerifValidatedAC2"], [FSM, "proto.Unmarshal by identity: stored bytes decode to the registered message"], ["real protobuf decoding", "races between the check and a concurrent eviction"]),
+ "C08": (["VerifCrashPutCasRaw", "VerifCrashPutAC", "VerifCrashPutCasZstd"], [], [FSM, HASH, CODEC], ["power loss, write reordering, fsync (process-kill semantics only)", "kill during start-up migration", "kill during overwrite/eviction/backend fetch (upload into an empty cache only)"]),
  "C09": (["VerifLoad2", "VerifLoadExtras"], ["VerifLoad3"], [FSM, "access times are the model's (distinct) integers"], ["real readdir order and atime semantics (relatime)", "legacy v0/v1 layouts (migration code is executed only on a current layout)", "more than 3 files", "schedules other than round-robin"]),
  "C10": (["VerifFindMissing3", "VerifFindMissingProxy1", "VerifFindMissingBatch", "VerifFindMissingBatchProxy", "VerifFilterNonNil", "VerifContains"], ["VerifFindMissing4", "VerifFindMissingProxy2", "VerifFindMissingBatch2"], ["the backend is an arbitrary per-hash verdict"], ["hundreds of digests with all states symbolic", "512 real workers", "more than 2 preemptive context switches"]),
  "C11": (["VerifValidateFilesDirs", "VerifValidateSymlinks", "VerifValidateNil"], [], ["strings are ASCII (Go byte strings and SMT code-point strings agree there)"], ["field-by-field fidelity of proto.Marshal/Unmarshal and protojson", "non-ASCII strings"]),
